@@ -183,7 +183,7 @@ def rule(F, rule_id, file_res, floor=1):
 				got = ent['pairs'].get(p)
 				if got is None:
 					out.append(Result(rule_id, False, 'lost:%s:%s:%s' % (short, what, p or 'self'), '%s::%s no longer compares `%s` (reviewed: compared %s): two values differing only there are now equal / unordered for every map, sort and dedup keyed on it' % (short, what, p or 'self', d), 1, where=where))
-				elif got != d:
+				elif got != d and what != 'eq':   # equality is symmetric: `o.a == self.a` is the same test
 					out.append(Result(rule_id, False, 'direction:%s:%s:%s' % (short, what, p or 'self'), '%s::%s compares `%s` %s (reviewed: %s): the order every heap / sorted container built on it relies on is reversed for this key' % (short, what, p or 'self', got, d), 1, where=where))
 		if what == 'hash' and ty in thashed:
 			for p in sorted(thashed[ty] - ent['hashed']):
